@@ -1,9 +1,9 @@
 package props
 
 import (
-	"io"
 	"bytes"
 	"fmt"
+	"io"
 	"sync"
 
 	"github.com/ulikunitz/xz/lzma"
